@@ -268,11 +268,12 @@ Proof.
     - exact (proj2 (iv_oth _ _ _ _ _ I1)). }
   destruct (swap_cond sw_reuse_needs_len0 sw_reuse_needs_one_slice l1) eqn:Esw; [|split; [exact Ih1|exact Ik1]].
   (* the swap *)
+  subst h1 h k.
   pose proof (swap_cond_len0 l1 Esw) as Hl0. pose proof (swap_cond_one l1 Esw) as Hone.
   destruct (Hshape Hl0 Hone) as [y [t [Esl [Eshm [Erd [Ewr [Et Ehn]]]]]]].
   destruct Ih1 as [J1 J2 J3 J4 J5 J6 J7 J8 J9 [J10a J10b] J11 J12 J13 J14 J15 J16 J17].
   destruct Ik1 as [K1 K2 K3 K4 K5 K6 K7 K8 K9 [K10a K10b] K11 K12 K13 K14 K15 K16 K17].
-  cbn [mk_sys mem snd infb pend rcv oth h1 k h_snd h_infb h_pend h_rcv] in *.
+  cbn [mk_sys mem snd infb pend rcv oth h_snd h_infb h_pend h_rcv] in *.
   pose proof K2 as [W1 W2 W3 W4 W5 W6 W7].
   destruct K17 as [Kp [Kr Kl]].
   assert (Hc1 : content m1 l1 = []).
@@ -334,7 +335,7 @@ Proof.
     + exact K5.
     + exact K6.
     + exact K7.
-    + intros z. specialize (K8 z). rewrite !cnt_owned in *. cbn [h_snd h_rcv h1] in *.
+    + intros z. specialize (K8 z). rewrite !cnt_owned in *. cbn [h_snd h_rcv] in *.
       rewrite Hpin0 in K8. rewrite Hkpin0. lia.
     + exact K9.
     + split; assumption.
@@ -345,4 +346,165 @@ Proof.
     + exact K15.
     + exact K16.
     + repeat split; assumption.
+Qed.
+
+Lemma dstep_reuse_inv D sp0 sp1 d : DInv D sp0 sp1 -> dop_ok sp0 sp1 (DReuse d) ->
+  exists D', mdstep D (DReuse d) = Ok (RUnit, D') /\ DInv D' sp0 sp1.
+Proof.
+  intros [idss0 [idss1 [I0 I1]]] Hok. unfold mdstep, dstep. destruct D as [m [s0 b0 p0 r0] [s1 b1 p1 r1] ot].
+  cbn [d_mem d_0 d_1 d_oth] in *. destruct d; cbn [dhalf negb d_0 d_1 d_mem d_oth h_snd h_infb h_pend h_rcv dop_ok] in *.
+  - (* stream A (reads direction 1) releases: its send buffer is direction 0's *)
+    pose proof (reuse_inv m s1 b1 p1 r1 s0 b0 p0 r0 ot sp1 idss1 sp0 idss0 I1 I0 Hok) as H.
+    destruct (release_reserve m r1) as [m1 l1].
+    destruct (swap_cond sw_reuse_needs_len0 sw_reuse_needs_one_slice l1); destruct H as [H1 H0];
+      (eexists; split; [reflexivity|]; exists idss0, idss1; cbn [d_mem d_0 d_1 d_oth]; split; [exact H0|exact H1]).
+  - pose proof (reuse_inv m s0 b0 p0 r0 s1 b1 p1 r1 ot sp0 idss0 sp1 idss1 I0 I1 Hok) as H.
+    destruct (release_reserve m r0) as [m1 l1].
+    destruct (swap_cond sw_reuse_needs_len0 sw_reuse_needs_one_slice l1); destruct H as [H0 H1];
+      (eexists; split; [reflexivity|]; exists idss0, idss1; cbn [d_mem d_0 d_1 d_oth]; split; [exact H0|exact H1]).
+Qed.
+
+Lemma DInv_lens D sp0 sp1 : DInv D sp0 sp1 ->
+  len (h_rcv (d_0 D)) = Z.of_nat (length (av sp0)) /\ len (h_snd (d_0 D)) = Z.of_nat (length (pw sp0)) /\
+  len (h_rcv (d_1 D)) = Z.of_nat (length (av sp1)) /\ len (h_snd (d_1 D)) = Z.of_nat (length (pw sp1)).
+Proof.
+  intros [idss0 [idss1 [I0 I1]]]. destruct (Inv_lens _ _ _ _ _ I0) as [A B]. destruct (Inv_lens _ _ _ _ _ I1) as [C E]. auto.
+Qed.
+
+Theorem dagrees_of_DInv : forall ops D sp0 sp1, DInv D sp0 sp1 -> dagrees D sp0 sp1 ops.
+Proof.
+  induction ops as [|o ops IH]; intros D sp0 sp1 I; [exact Logic.I|]. cbn [dagrees]. intros Hok.
+  destruct o as [d o|d].
+  - pose proof (dstep_op_inv D sp0 sp1 d o I) as H. destruct (dspec_step sp0 sp1 (DOp d o)) as [[[x sp0'] sp1']|].
+    + destruct H as [y [D' [Hs [Hr I']]]]. exists y, D'. split; [exact Hs|]. split; [exact Hr|].
+      destruct (DInv_lens _ _ _ I') as [L1 [L2 [L3 L4]]]. repeat (split; [assumption|]). apply IH. exact I'.
+    + split; [exact H|]. apply IH. exact I.
+  - destruct (dstep_reuse_inv D sp0 sp1 d I Hok) as [D' [Hs I']]. cbn [dspec_step]. exists RUnit, D'.
+    split; [exact Hs|]. split; [reflexivity|].
+    destruct (DInv_lens _ _ _ I') as [L1 [L2 [L3 L4]]]. repeat (split; [assumption|]). apply IH. exact I'.
+Qed.
+
+Lemma DInv_init cfg : cfg_ok cfg -> DInv (init_dsys cfg) spec0 spec0.
+Proof.
+  intros Hc. exists [], []. pose proof (Inv_init cfg Hc) as I. unfold Inv1 in I.
+  assert (J : Inv (owned empty_half []) (slot_at (init_shm cfg)) (mk_sys (init_shm cfg) empty_half []) spec0 []).
+  { destruct I as [I1 I2 I3 I4 I5 I6 I7 I8 I9 I10 I11 I12 I13 I14 I15 I16 I17]. constructor; auto. }
+  split; exact J.
+Qed.
+
+(* C06 for both directions of a stream pair, ReleaseReadAndReuse included *)
+Theorem duplex_refines cfg ops : cfg_ok cfg -> dagrees (init_dsys cfg) spec0 spec0 ops.
+Proof. intros Hc. apply dagrees_of_DInv. apply DInv_init. exact Hc. Qed.
+
+(* ---------------------------------------------------------------------------------------- *)
+(* the guard is necessary: ReleaseReadAndReuse by a stream with written, unflushed bytes     *)
+(* ---------------------------------------------------------------------------------------- *)
+Fixpoint dagrees_unguarded (D : dsys) (sp0 sp1 : spec) (ops : list dop) : Prop :=
+  match ops with
+  | [] => True
+  | o :: r =>
+    match dspec_step sp0 sp1 o with
+    | None => mdstep D o = Blocked /\ dagrees_unguarded D sp0 sp1 r
+    | Some (x, sp0', sp1') =>
+        exists y D', mdstep D o = Ok (y, D') /\ dres_agree o x y
+          /\ len (h_rcv (d_0 D')) = Z.of_nat (length (av sp0')) /\ len (h_snd (d_0 D')) = Z.of_nat (length (pw sp0'))
+          /\ len (h_rcv (d_1 D')) = Z.of_nat (length (av sp1')) /\ len (h_snd (d_1 D')) = Z.of_nat (length (pw sp1'))
+          /\ dagrees_unguarded D' sp0' sp1' r
+    end
+  end.
+
+(* the documented misuse: A sends 4 bytes, B reads them, B writes 3 bytes WITHOUT flushing and calls
+   ReleaseReadAndReuse: the swap puts B's own unflushed bytes into B's read buffer *)
+Definition misuse_ops : list dop :=
+  [DOp false (WBytes [1; 2; 3; 4]%Z); DOp false WFlush; DOp false (RBytes 4);
+   DOp true (WBytes [7; 8; 9]%Z); DReuse false].
+
+Fixpoint drun (D : dsys) (ops : list dop) : option dsys :=
+  match ops with
+  | [] => Some D
+  | o :: r => match mdstep D o with Ok (_, D') => drun D' r | Blocked => drun D r | _ => None end
+  end.
+
+Lemma misuse_swaps_unflushed_bytes :
+  match drun (init_dsys [(16, 4)]) misuse_ops with
+  | Some D => len (h_rcv (d_0 D)) = 3%Z /\ len (h_snd (d_1 D)) = 0%Z
+  | None => False
+  end.
+Proof. vm_compute. split; reflexivity. Qed.
+
+Fixpoint dspec_run (sp0 sp1 : spec) (ops : list dop) : spec * spec :=
+  match ops with
+  | [] => (sp0, sp1)
+  | o :: r => match dspec_step sp0 sp1 o with Some (_, a, b) => dspec_run a b r | None => dspec_run sp0 sp1 r end
+  end.
+
+Lemma dagrees_unguarded_drun : forall ops D sp0 sp1,
+  len (h_rcv (d_0 D)) = Z.of_nat (length (av sp0)) -> dagrees_unguarded D sp0 sp1 ops ->
+  exists D', drun D ops = Some D' /\ len (h_rcv (d_0 D')) = Z.of_nat (length (av (fst (dspec_run sp0 sp1 ops)))).
+Proof.
+  induction ops as [|o r IH]; intros D sp0 sp1 HP H; cbn [drun dspec_run dagrees_unguarded] in *.
+  - exists D. auto.
+  - destruct (dspec_step sp0 sp1 o) as [[[x a] b]|].
+    + destruct H as [y [D1 [Hs [_ [L1 [_ [_ [_ H]]]]]]]]. rewrite Hs. apply IH; assumption.
+    + destruct H as [Hs H]. rewrite Hs. apply IH; assumption.
+Qed.
+
+Theorem duplex_unguarded_refuted :
+  ~ (forall cfg ops, cfg_ok cfg -> dagrees_unguarded (init_dsys cfg) spec0 spec0 ops).
+Proof.
+  intros H. assert (Hc : cfg_ok [(16, 4)]) by (constructor; [cbn; lia|constructor]).
+  specialize (H [(16, 4)] misuse_ops Hc).
+  destruct (dagrees_unguarded_drun misuse_ops (init_dsys [(16, 4)]) spec0 spec0 ltac:(reflexivity) H) as [D' [Hr HL]].
+  pose proof misuse_swaps_unflushed_bytes as M. rewrite Hr in M. destruct M as [M _].
+  rewrite M in HL. vm_compute in HL. discriminate.
+Qed.
+
+(* the guard is satisfiable with a real swap: B reads A's message, adopts the slice, echoes through it *)
+Fixpoint douts (D : dsys) (ops : list dop) : list (option res) :=
+  match ops with
+  | [] => []
+  | o :: r => match mdstep D o with Ok (y, D') => Some y :: douts D' r | _ => [None] end
+  end.
+
+Example duplex_echo_through_adopted_slice :
+  let ops := [DOp false (WBytes [1; 2; 3; 4]%Z); DOp false WFlush; DOp false (RBytes 4); DReuse false;
+              DOp true (WBytes [7; 8; 9]%Z); DOp true WFlush; DOp true (RBytes 3); DReuse true] in
+  douts (init_dsys [(16, 4)]) ops
+    = map Some [RN 4; RUnit; RData [1; 2; 3; 4]%Z; RUnit; RN 3; RUnit; RData [7; 8; 9]%Z; RUnit]
+  /\ match drun (init_dsys [(16, 4)]) (firstn 5 ops) with
+     | Some D => free_counts (d_mem D) = [3] /\ length (slices (h_snd (d_1 D))) = 1   (* no new slot for the echo *)
+     | None => False
+     end.
+Proof. vm_compute. repeat split. Qed.
+
+(* ---------------------------------------------------------------------------------------- *)
+(* reachable states of the pair; leases (C08) in both directions                             *)
+(* ---------------------------------------------------------------------------------------- *)
+Fixpoint dguard (sp0 sp1 : spec) (ops : list dop) : Prop :=
+  match ops with
+  | [] => True
+  | o :: r => dop_ok sp0 sp1 o /\
+              match dspec_step sp0 sp1 o with Some (_, a, b) => dguard a b r | None => dguard sp0 sp1 r end
+  end.
+
+Theorem dreachable_DInv : forall ops D sp0 sp1 D', DInv D sp0 sp1 -> dguard sp0 sp1 ops -> drun D ops = Some D' ->
+  DInv D' (fst (dspec_run sp0 sp1 ops)) (Datatypes.snd (dspec_run sp0 sp1 ops)).
+Proof.
+  induction ops as [|o r IH]; intros D sp0 sp1 D' I G H; cbn [drun dspec_run dguard] in *.
+  - injection H as <-. exact I.
+  - destruct G as [Gok G]. destruct o as [d o|d].
+    + pose proof (dstep_op_inv D sp0 sp1 d o I) as Hs. destruct (dspec_step sp0 sp1 (DOp d o)) as [[[x a] b]|].
+      * destruct Hs as [y [D1 [Hs [_ I1]]]]. rewrite Hs in H. eapply IH; eassumption.
+      * rewrite Hs in H. eapply IH; eassumption.
+    + destruct (dstep_reuse_inv D sp0 sp1 d I Gok) as [D1 [Hs I1]]. rewrite Hs in H. cbn [dspec_step] in *. eapply IH; eassumption.
+Qed.
+
+Theorem duplex_leases_safe cfg ops D' le : cfg_ok cfg -> dguard spec0 spec0 ops -> drun (init_dsys cfg) ops = Some D' ->
+  In le (leases (h_rcv (d_0 D')) ++ leases (h_rcv (d_1 D'))) -> l_shm le = true ->
+  ~ In (l_off le) (frees (d_mem D')) /\ lease_bytes (d_mem D') le = l_bytes le.
+Proof.
+  intros Hc G Hr Hin Hs. destruct (dreachable_DInv ops _ _ _ _ (DInv_init cfg Hc) G Hr) as [i0 [i1 [I0 I1]]].
+  apply in_app_or in Hin. destruct Hin as [Hin|Hin].
+  - destruct (Inv_leases_safe _ _ _ _ _ le I0 Hin Hs) as [A [B _]]. auto.
+  - destruct (Inv_leases_safe _ _ _ _ _ le I1 Hin Hs) as [A [B _]]. auto.
 Qed.
